@@ -106,6 +106,28 @@ EXTRA = {
  "C20": " Transparency operands include polygons strictly containing every base and a far one; all four coordinate types in both tiers.",
 }
 
+for k, v in {
+ "C01": " T-junction family; many-vertex polygons; features 1e-3 / 3e-5 of their distance from the origin.",
+ "C02": " T-junction family; loops drawn by several LineStrings.",
+ "C03": " Many-vertex rings with every one-vertex move; T-junctions on long edges; outside rings touching the shell at a repeated start vertex.",
+ "C04": " Wide collections (33..500 members), a nested collection after 12000 elements, Scan into receivers that already hold a value.",
+ "C05": " Wide collections, numeral classes, malformed trailers.",
+ "C06": " Wide collections, numeral classes, positions of 8 and 9 elements, refused members among mixed siblings, reused receivers, case-variant foreign members.",
+ "C07": " Wide collections; a tenths frame in the quick tier.",
+ "C08": " GeometryCollections nested 16..7000 deep in every format (valid, invalid, truncated innermost member), WKB and TWKB count amplification.",
+ "C09": " T-junction family; many-vertex polygons; features 1e-3 / 3e-5 of their distance from the origin.",
+ "C10": " Mixed-length GeoJSON decodes in the map-order explorer.",
+ "C11": " Trees loaded with negative record ids.",
+ "C12": " Sequences of 5..13 points with a single extreme at every position; classification on the extreme lattices.",
+ "C13": " Multi-member carriers, backtracking LineStrings.",
+ "C14": " Members whose hole is wound like its shell.",
+ "C16": " The 28 bare-ordinate constructors.",
+ "C17": " Long lines, exact ties at other grids, scale-0.07 image, orientation through the concrete types.",
+ "C19": " Points 1e-8..1e-2 degrees from the azimuthal centres.",
+ "C20": " Many-member bases far from the origin, operands around the origin, empties inside Multi* members of collections.",
+}.items():
+    EXTRA[k] = EXTRA.get(k, "") + v
+
 PENDING = {}
 
 def main():
